@@ -153,6 +153,10 @@ def compare(lr, exp, metrics=METRICS):
     elif exp["num_ref_instances"] + exp["num_pred_instances"] > 0:
         if not H.same_value(lr["rq"], 0.0, 0):
             return f"rq={lr['rq']!r} with tp=0 and instances present (definition gives 0)"
+    else:
+        # no instance on either side: tp/(tp+fp/2+fn/2) is 0/0, i.e. not a number
+        if not (isinstance(lr["rq"], float) and math.isnan(lr["rq"])):
+            return f"rq={lr['rq']!r} without any instance: tp/(tp+fp/2+fn/2) is 0/0 (NaN)"
     return None
 
 
